@@ -107,6 +107,21 @@ def flex_boundary_inits(t, rng):
     return out[:6]
 
 
+def vec_len_boundary_inits(t, rng):
+    """FlatVec / FlatString whose length type is one byte wide: contents of L::MAX, L::MAX + 1 and 300 items (the
+    capacity is clamped to L::MAX whatever the room; flat_vec![..] must check against the clamped value)"""
+    out = []
+    if t[0] == 'vec' and INTS[t[2]][0] == 1 and t[1][0] in ('int', 'bool') and ssize(t[1]) in (1, 2):
+        for n in (255, 256, 300):
+            items = ''.join(' ' + gen_init(t[1], rng, 3, False) for _ in range(n))
+            out.append('(varr%s)' % items)
+        out.append('(viter%s)' % ''.join(' ' + gen_init(t[1], rng, 3, False) for _ in range(256)))
+    if t[0] == 'str' and INTS[t[1]][0] == 1:
+        for n in (255, 256):
+            out.append('(str %s)' % hexs(bytes([0x61 + (j % 26) for j in range(n)])))
+    return out
+
+
 def garbage(rng, n):
     return bytes(rng.randrange(256) for _ in range(n))
 
@@ -116,7 +131,7 @@ def stage1(shapes, seed, per_shape=3):
     rng = random.Random(seed * 7919 + 1)
     lines, meta = [], {}
     for sid, t in shapes:
-        inits = variant_inits(t, rng) + flex_boundary_inits(t, rng)
+        inits = variant_inits(t, rng) + flex_boundary_inits(t, rng) + vec_len_boundary_inits(t, rng)
         while len(inits) < per_shape + (1 if has_default(t) else 0):
             inits.append(gen_init(t, rng))
         seen = set()
